@@ -616,7 +616,6 @@ func reachingStores(cell *ssa.Alloc, at ssa.Instruction) []*ssa.Store {
 	return []*ssa.Store{last}
 }
 
-
 var chanFieldAliasMemo = map[string]string{}
 
 // canonChanField: a struct may keep the same channel in two fields of different direction (senderDone <-chan struct{} to wait
